@@ -17,7 +17,18 @@ fn gen_token(r: &mut Rng, nonce: u64) -> String {
 
 fn gen_msg(r: &mut Rng) -> String {
     let base = *r.pick(&["bad thing", "", "nope: \"quoted\"", "ünïcödé 😀", "line\nbreak", "a/b\\c", "{\"json\":1}"]);
-    format!("{}{}", base, r.range(0, 999))
+    let mut m = format!("{}{}", base, r.range(0, 999));
+    if r.chance(1, 6) {
+        // a long message of multi-byte characters (0-3 bytes of ASCII first,
+        // so that every fixed byte offset falls inside some character)
+        for _ in 0..r.range(0, 3) {
+            m.push('x');
+        }
+        for _ in 0..r.range(200, 1500) {
+            m.push(*r.pick(&['é', 'ß', '中', '😀', '\u{ffff}']));
+        }
+    }
+    m
 }
 
 fn gen_headers(r: &mut Rng) -> Vec<(String, String)> {
@@ -73,7 +84,7 @@ pub fn gen_req(r: &mut Rng, nonce: u64, versioned: bool) -> ErrReq {
             let via_status = r.chance(1, 2);
             let script = json!({
                 "ctor": ctor, "status": status, "code": code, "external": external,
-                "internal": format!("internal detail {secret}"), "headers": headers, "via_status": via_status,
+                "internal": format!("internal detail {secret} {}", if r.chance(1, 6) { gen_msg(r) } else { String::new() }), "headers": headers, "via_status": via_status,
             });
             let body = serde_json::to_vec(&script).unwrap();
             let in_client = (400..500).contains(&status);
